@@ -168,6 +168,27 @@ class _Canon(ast.NodeTransformer):
                 return self.visit(ast.Compare(left=o.left, ops=[_NEG[type(o.ops[0])]()], comparators=o.comparators))
             if _is_call(o, 'len', (1,)) and isinstance(o.func, ast.Name):
                 return ast.UnaryOp(op=ast.Not(), operand=o.args[0])
+            # De Morgan: not (a and b) -> (not a) or (not b) ; not (a or b) -> (not a) and (not b)
+            if isinstance(o, ast.BoolOp):
+                newop = ast.Or() if isinstance(o.op, ast.And) else ast.And()
+                return ast.BoolOp(op=newop, values=[self.visit(ast.UnaryOp(op=ast.Not(), operand=v)) for v in o.values])
+            # not any(E for ..) -> all(not E for ..) ; not all(E for ..) -> any(not E for ..)
+            if isinstance(o, ast.Call) and isinstance(o.func, ast.Name) and o.func.id in ('any', 'all') and len(o.args) == 1 and \
+                    isinstance(o.args[0], (ast.GeneratorExp, ast.ListComp)) and not o.keywords:
+                g = o.args[0]
+                flipped = ast.GeneratorExp(elt=self.visit(ast.UnaryOp(op=ast.Not(), operand=g.elt)), generators=g.generators)
+                return ast.Call(func=ast.Name(id='all' if o.func.id == 'any' else 'any', ctx=ast.Load()), args=[flipped], keywords=[])
+        return node
+
+    def visit_ListComp(self, node):
+        node = self.generic_visit(node)
+        return node
+
+    def visit_Call(self, node):
+        node = self.generic_visit(node)
+        # any([..]) / all([..]) : list and generator forms are the same test
+        if isinstance(node.func, ast.Name) and node.func.id in ('any', 'all') and len(node.args) == 1 and isinstance(node.args[0], ast.ListComp):
+            node.args[0] = ast.GeneratorExp(elt=node.args[0].elt, generators=node.args[0].generators)
         return node
 
     def visit_Compare(self, node):
@@ -890,6 +911,8 @@ def eval_test(expr, bindings, fold=None):
             v = ev(expr.func.value)
             if isinstance(v, str):
                 return getattr(v, expr.func.attr)()
+    if isinstance(expr, (ast.Tuple, ast.List, ast.Set)):
+        return tuple(ev(x) for x in expr.elts)
     if fold is not None:
         try:
             return fold(expr)
@@ -934,6 +957,24 @@ def _split_ifexp(e, conds, nodes):
             out += _split_ifexp(e.orelse, conds + [ntt], nodes + [nt])
         return out
     return [(conds, nodes, e)]
+
+
+def _replace_node(root, target, repl):
+    """clone of `root` with the sub-tree `target` (identity) replaced by `repl`"""
+    if root is target:
+        return clone(repl)
+    if isinstance(root, list):
+        return [_replace_node(x, target, repl) for x in root]
+    if not isinstance(root, ast.AST):
+        return root
+    new = type(root)()
+    for f in root._fields:
+        if hasattr(root, f):
+            setattr(new, f, _replace_node(getattr(root, f), target, repl))
+    for a in root._attributes:
+        if hasattr(root, a):
+            setattr(new, a, getattr(root, a))
+    return new
 
 
 def branch_values(stmts, sink, env0=None, max_paths=2000, follow_loops=False, opaque=()):
@@ -981,7 +1022,27 @@ def branch_values(stmts, sink, env0=None, max_paths=2000, follow_loops=False, op
                 env = kill(env, st)
                 continue
             if isinstance(st, ast.If):
-                t = canon(expand(st.test, env))
+                t0 = expand(st.test, env)
+                inner = next((x for x in ast.walk(t0) if isinstance(x, ast.IfExp)), None)
+                if inner is not None:
+                    # a conditional expression inside the test: case split on its condition
+                    class _Sub(ast.NodeTransformer):
+                        def __init__(self, target, repl):
+                            self.target, self.repl = target, repl
+
+                        def visit_IfExp(self, n):
+                            return self.repl if n is self.target else self.generic_visit(n)
+                    ct = canon(inner.test)
+                    nct = negate(ct)
+                    for cond_node, arm in ((ct, inner.body), (nct, inner.orelse)):
+                        ctt, nctt = ctext(cond_node), ctext(negate(cond_node))
+                        if nctt in conds:
+                            continue
+                        st2 = ast.If(test=_replace_node(t0, inner, arm), body=st.body, orelse=st.orelse)
+                        ast.copy_location(st2, st)
+                        run([st2] + rest, env, conds + ([ctt] if ctt not in conds else []), nodes + ([cond_node] if ctt not in conds else []))
+                    return
+                t = canon(t0)
                 nt = negate(t)
                 tt, ntt = ctext(t), ctext(nt)
                 folded = None
@@ -1090,3 +1151,77 @@ def merge_outcomes(outs, max_vars=14):
             texts = sorted(text_of[l] for l in term)
             result.append(Outcome(texts, proto.value, proto.stmt, [node_of[t] for t in texts], proto.target))
     return result
+
+
+# ---------------------------------------------------------------------------
+# value of an expression under an assumption about discriminating sub-expressions
+# ---------------------------------------------------------------------------
+
+def value_under(expr, bindings, fold, env=None, fn=None):
+    """Constant value of ``expr`` given ``bindings`` (canonical text of a sub-expression -> constant) and a folder for
+    constants; understands lookups in constant tables (``TABLE[k]``, ``TABLE.get(k, d)``), conditional expressions, and
+    ``a or b`` / ``a and b`` on constants. Raises Unknown when the value is not determined."""
+    e = expand(expr, env) if env else expr
+    key = ' '.join(ast.unparse(e).split())
+    if key in bindings:
+        return bindings[key]
+    if isinstance(e, ast.Constant):
+        return e.value
+    if isinstance(e, ast.Name) and fn is not None:
+        # a local set in several branches: the definitions whose guards hold under the assumption
+        vals = []
+        for n in walk_no_nested(fn):
+            if isinstance(n, ast.Assign) and any(isinstance(t, ast.Name) and t.id == e.id for t in n.targets):
+                _, conds_ = _enclosing(n, fn)
+                ok = True
+                for c_ in conds_:
+                    c2 = canon(expand(c_, env) if env else c_)
+                    if any(' '.join(ast.unparse(x).split()) in bindings for x in ast.walk(c2)):
+                        if not eval_test(c2, bindings, fold):
+                            ok = False
+                            break
+                if ok:
+                    vals.append(value_under(n.value, bindings, fold, env, None))
+        if vals and all(v == vals[0] for v in vals):
+            return vals[0]
+        raise Unknown(key)
+    if isinstance(e, ast.IfExp):
+        t = eval_test(canon(e.test), bindings, fold)
+        return value_under(e.body if t else e.orelse, bindings, fold)
+    if isinstance(e, ast.Subscript):
+        try:
+            table = fold(e.value)
+        except Exception:
+            table = None
+        if isinstance(table, dict):
+            k = value_under(e.slice, bindings, fold)
+            if k in table:
+                return table[k]
+            raise Unknown(f'{key}: key {k!r} not in the table')
+    if isinstance(e, ast.Call) and isinstance(e.func, ast.Attribute) and e.func.attr == 'get' and e.args:
+        try:
+            table = fold(e.func.value)
+        except Exception:
+            table = None
+        if isinstance(table, dict):
+            k = value_under(e.args[0], bindings, fold)
+            if k in table:
+                return table[k]
+            return value_under(e.args[1], bindings, fold) if len(e.args) > 1 else None
+    if isinstance(e, ast.BoolOp):
+        vals = [value_under(v, bindings, fold) for v in e.values]
+        if isinstance(e.op, ast.Or):
+            for v in vals:
+                if v:
+                    return v
+            return vals[-1]
+        for v in vals:
+            if not v:
+                return v
+        return vals[-1]
+    if isinstance(e, (ast.Tuple, ast.List, ast.Set)):
+        return tuple(value_under(x, bindings, fold) for x in e.elts)
+    try:
+        return fold(e)
+    except Exception:
+        raise Unknown(key)
